@@ -17,14 +17,15 @@
  *
  * Output (one line):
  *   R: N=<n> cap=<c> | <events of thread 0> | ... | ok=.. busy=.. bad=.. err=.. refsum=<p>,<m>,<r>
- *        nolock=<count>[:<first>] badbusy=<count>
+ *        nolock=<count>[:<first>] badbusy=<count> joined=<count>
  *   S: N=<n> iters=<k> refsum=<p> expected=0
  *
  * Events (one token each, per thread, in program order):
  *   L<l> U<l>      mutex lock / unlock        l: 1 = cache_lock, 3.. = other mutexes
  *   r<l> w<l> u<l> rwlock read / write / unlock   l: 2 = shared->lock, others as numbered
  *   G<c>:<e>       cache_get_entry returned entry e (offset of the entry in the cache
- *                  object), G<c>:-:<refsum> = busy (NULL) with the sum of references then
+ *                  object; suffix :j = the entry is in flight for another thread),
+ *                  G<c>:-:<refsum> = busy (NULL) with the sum of references then
  *   I<c>:<e> D<c>:<e> P<c>:<e>   cache_insert / cache_discard / cache_put_entry
  *       c: 1 = page cache, 2 = file cache (mmap regions), 3 = file cache (read pages)
  *   a suffix '!' on a cache token = the calling thread did not hold cache_lock
@@ -48,7 +49,7 @@ struct tstate {
 	size_t len, cap;
 	const void *held[16];
 	int nheld;
-	unsigned nolock;
+	unsigned nolock, joined;
 	char first_nolock[32];
 };
 
@@ -128,9 +129,14 @@ void verif_cache_event(int fn, struct cache *cache, struct cache_entry *entry)
 	if (fn == 0)
 		return;			/* the result event (4) carries the token */
 	if (fn == 4) {
-		if (entry)
-			snprintf(b, sizeof b, "G%d:%lx%s", c,
-				 (unsigned long)((char *)entry - (char *)cache), haslock ? "" : "!");
+		if (entry) {
+			/* not valid but already referenced: another thread's in-flight entry */
+			int joined = !cache_entry_valid(entry) && entry->refcnt > 0;
+			if (joined) ++t->joined;
+			snprintf(b, sizeof b, "G%d:%lx%s%s", c,
+				 (unsigned long)((char *)entry - (char *)cache),
+				 joined ? ":j" : "", haslock ? "" : "!");
+		}
 		else
 			snprintf(b, sizeof b, "G%d:-:%lx%s", c,
 				 haslock ? verif_cache_refsum(cache) : 0UL, haslock ? "" : "!");
@@ -150,6 +156,7 @@ struct job {
 	unsigned char *ref;		/* npages * 4096 reference bytes */
 	int *refst;			/* reference status per page */
 	unsigned long ok, busy, bad, err;
+	char firstbad[96];
 	pthread_barrier_t *bar;
 	/* stress */
 	unsigned long iters;
@@ -202,8 +209,16 @@ static void *reader(void *arg)
 				want += part; left -= part; o = 0; ++p;
 			}
 			if (st != wst || got != want ||
-			    memcmp(buf, j->ref + (size_t)pg * 4096 + off, want))
-				++j->bad;
+			    memcmp(buf, j->ref + (size_t)pg * 4096 + off, want)) {
+				if (!j->bad++) {
+					size_t d = 0;
+					while (d < want && d < got &&
+					       buf[d] == j->ref[(size_t)pg * 4096 + off + d]) ++d;
+					snprintf(j->firstbad, sizeof j->firstbad,
+						 "page=%x,off=%zx,len=%zx,status=%d/%d,got=%zx/%zx,firstdiff=%zx",
+						 pg, off, len, (int)st, wst, got, want, d);
+				}
+			}
 			else if (st == KDUMP_OK) ++j->ok;
 			else ++j->err;
 		}
@@ -253,8 +268,9 @@ static void run_readers(char **f, int nf)
 	unsigned npages;
 	unsigned char *ref;
 	int *refst;
-	unsigned long ok = 0, busy = 0, bad = 0, err = 0, nolock = 0, badbusy = 0;
+	unsigned long ok = 0, busy = 0, bad = 0, err = 0, nolock = 0, badbusy = 0, joined = 0;
 	const char *first = "";
+	char firstbad[96] = "";
 
 	(void)nf;
 	if (nthreads < 1 || nthreads > MAXT) { printf("BADCASE\n"); return; }
@@ -321,16 +337,18 @@ static void run_readers(char **f, int nf)
 		if (j->ts.len + 64 > j->ts.cap) printf("TRUNCATED");
 		ok += j->ok; busy += j->busy; bad += j->bad; err += j->err;
 		if (j->ts.nolock && !nolock) first = j->ts.first_nolock;
+		joined += j->ts.joined;
+		if (j->bad && !firstbad[0]) snprintf(firstbad, sizeof firstbad, "%s", j->firstbad);
 		nolock += j->ts.nolock;
 	}
 	/* a read may only be refused when the cache is smaller than the number of threads */
 	if (busy && cap >= nthreads) badbusy = busy;
-	printf(" | ok=%lu busy=%lu bad=%lu err=%lu refsum=%lu,%lu,%lu nolock=%lu%s%s badbusy=%lu\n",
-	       ok, busy, bad, err,
+	printf(" | ok=%lu busy=%lu bad=%lu%s%s err=%lu refsum=%lu,%lu,%lu nolock=%lu%s%s badbusy=%lu joined=%lu\n",
+	       ok, busy, bad, bad ? ":" : "", firstbad, err,
 	       verif_cache_refsum(base->shared->cache),
 	       verif_cache_refsum(base->shared->fcache->cache),
 	       verif_cache_refsum(base->shared->fcache->fbcache),
-	       nolock, nolock ? ":" : "", first, badbusy);
+	       nolock, nolock ? ":" : "", first, badbusy, joined);
 	for (i = 0; i < nthreads; ++i) {
 		kdump_free(clones[i]);
 		free(jobs[i].ts.ev);
